@@ -86,7 +86,12 @@ structure SlowInv (op : Nat) (c0 : SState) (n total : Nat) (s : St) (io : Io) : 
 theorem slowInv_step {o : Oracle} {op : Nat} {c0 : SState} {n total : Nat} {s s' : St} {io io' : Io} {c : Ctl}
     (hP : SlowInv op c0 n total s io) (h : slowStep o op s io = .ok (s', io', c)) :
     c ≠ .fail ∧ SlowInv op c0 n total s' io' := by
-  obtain ⟨i1, i2, i3, i4, i5, i6⟩ := slowStep_spec hP.inv (by rw [hP.sum]; exact hP.nowrap) h
+  have hnp : s.streamState ≠ .processing → io.availIn = 0 := by
+    intro hne
+    rcases hP.st with h1 | ⟨_, h2, _⟩
+    · exact hP.nonproc (by rw [← h1]; exact hne)
+    · exact h2
+  obtain ⟨i1, i2, i3, i4, i5, i6⟩ := slowStep_spec hP.inv (by rw [hP.sum]; exact hP.nowrap) hnp h
   refine ⟨i3, ⟨i1, i2.trans hP.sum, hP.nowrap, i4.trans hP.rm, Nat.le_trans i5 hP.availLe, ?_, ?_⟩⟩
   · intro hc
     have := hP.nonproc hc
